@@ -302,3 +302,50 @@ def nc_as_amber_writes(path, data_model='NETCDF3_64BIT_OFFSET', with_velocities=
         if with_remd:
             t0[k] = 300.0 + k
     out.close()
+
+
+def dcd_set_header_count(path, count):
+    """the frame counter of the DCD header (NSET) set to `count`: 0 is what a writer that was killed before it closed the
+    file leaves behind (CHARMM, NAMD and OpenMM update the counter late or only at the end); readers are expected to go
+    by the file size.  Little-endian files only."""
+    with open(path, 'r+b') as f:
+        f.seek(8)
+        f.write(struct.pack('<i', int(count)))
+
+
+def nc_pack_variables(path, factor=10.0):
+    """coordinates and cell_lengths stored packed (value / factor, with the CF `scale_factor` attribute = factor) in a
+    netCDF4-library file: legal NetCDF that the netCDF4 reader unpacks on access.  In place."""
+    import sys
+    hidden = 'netCDF4' in sys.modules and sys.modules['netCDF4'] is None
+    if hidden:
+        del sys.modules['netCDF4']
+    try:
+        import netCDF4
+    finally:
+        if hidden:
+            sys.modules['netCDF4'] = None
+    src = netCDF4.Dataset(path)
+    dims = {k: (None if v.isunlimited() else len(v)) for k, v in src.dimensions.items()}
+    attrs = {a: src.getncattr(a) for a in src.ncattrs()}
+    vs = []
+    for k, v in src.variables.items():
+        vs.append((k, v.dtype, v.dimensions, {a: v.getncattr(a) for a in v.ncattrs()}, np.array(v[:])))
+    fmt = src.data_model
+    src.close()
+    out = netCDF4.Dataset(path, 'w', format=fmt)
+    for a, val in attrs.items():
+        out.setncattr(a, val)
+    for k, n in dims.items():
+        out.createDimension(k, n)
+    for k, dt, dm, at, data in vs:
+        v = out.createVariable(k, dt, dm)
+        for a, val in at.items():
+            v.setncattr(a, val)
+        v.set_auto_maskandscale(False)
+        if k in ('coordinates', 'cell_lengths'):
+            v.scale_factor = float(factor)
+            v[:] = (data.astype(np.float64) / factor).astype(dt)
+        else:
+            v[:] = data
+    out.close()
